@@ -293,6 +293,7 @@ func gen(t *rapid.T) Case {
 	c.Feat.RefuseMono = rapid.IntRange(0, 9).Draw(t, "refuseMono") < 3
 	c.Feat.Early201 = rapid.IntRange(0, 9).Draw(t, "early201") < 2
 	c.Feat.RangeBytes = rapid.IntRange(0, 9).Draw(t, "rangeBytes") < 2
+	c.Feat.DataRedirect = rapid.SampledFrom([]int{0, 0, 0, 0, 0, 0, 0, 307, 308}).Draw(t, "dataRedirect")
 	c.RetryLimit = rapid.SampledFrom([]int{3, 3, 4, 5}).Draw(t, "retryLimit")
 	nf := rapid.SampledFrom([]int{0, 0, 0, 0, 0, 1, 1, 1, 2, 2}).Draw(t, "nFaults")
 	for i := 0; i < nf; i++ {
